@@ -241,7 +241,7 @@ def universe(run, ecos=None):
 def token_universe(run, exe, ecos, L, cap=None, rnd=None):
     """B1, small scope: every token sequence of length <= L after a stem (Tokens.tla), filtered by the real parser.
     Returns {eco: [accepted texts]} (sorted; capped by a seeded sample when cap is given) and the candidate counts."""
-    cfg = cfg_consts(TE=set(ecos), TL=L) + "INIT Init\nNEXT Next\nINVARIANT Emit\nCHECK_DEADLOCK FALSE\n"
+    cfg = cfg_consts(TE=set(ecos), TL=L, TMode="v") + "INIT Init\nNEXT Next\nINVARIANT Emit\nCHECK_DEADLOCK FALSE\n"
     lines, st, dt = tlc(run, "MC_Tokens", cfg, name="tokens.L%d" % L, workers=8, timeout=1800, heap="8g")
     cand = {e: set() for e in ecos}
     for v in tagged(lines, "VEC"):
@@ -252,6 +252,15 @@ def token_universe(run, exe, ecos, L, cap=None, rnd=None):
         rnd = rnd or random.Random(seed())
         acc = {e: (sorted(rnd.sample(acc[e], cap)) if len(acc[e]) > cap else acc[e]) for e in ecos}
     return acc, counts
+
+def range_token_texts(run, ecos, L):
+    """every sequence of at most L range tokens per ecosystem (Tokens.tla, TMode = "r"): {eco: [texts]}, unfiltered"""
+    cfg = cfg_consts(TE=set(ecos), TL=L, TMode="r") + "INIT Init\nNEXT Next\nINVARIANT Emit\nCHECK_DEADLOCK FALSE\n"
+    lines, st, dt = tlc(run, "MC_Tokens", cfg, name="rtokens.L%d" % L, workers=8, timeout=1800, heap="8g")
+    out = {e: set() for e in ecos}
+    for v in tagged(lines, "VEC"):
+        out[v["eco"]].add(v["text"])
+    return {e: sorted(out[e]) for e in ecos}
 
 def tla_str(t):
     return '"' + t.replace("\\", "\\\\").replace('"', '\\"') + '"'
